@@ -15,6 +15,7 @@ require (
 	cloud.google.com/go/iam v1.1.2 // indirect
 	cloud.google.com/go/storage v1.30.1 // indirect
 	filippo.io/edwards25519 v1.1.0 // indirect
+	github.com/anishathalye/porcupine v1.3.0
 	github.com/aws/aws-sdk-go v1.44.51 // indirect
 	github.com/bradfitz/latlong v0.0.0-20170410180902-f3db6d0dff40 // indirect
 	github.com/coder/websocket v1.8.12 // indirect
